@@ -293,7 +293,10 @@ def immediates(draw, name: str, allow_slashes=True):
             toks.append(a)
             vals.append(a)
         elif kind == "method":
-            sig = draw(st.sampled_from(["a()void", "hello(string)string", "f(uint64,byte[])uint64", "x(address)bool"]))
+            # the assembler hashes the raw text between the outer quotes (no unescaping; a non ARC-4 signature
+            # only draws a warning); the tokenizer keeps a quoted literal with spaces, `//` and \" in one token
+            sig = draw(st.sampled_from(["a()void", "hello(string)string", "f(uint64,byte[])uint64", "x(address)bool",
+                                        'say\\"hi\\"', '\\"q()void', "a b()void", "a//b()void", 'f(\\")void', "", '\\"']))
             toks.append('"' + sig + '"')
             vals.append(sig)
         else:
